@@ -6,7 +6,7 @@ import os, json, itertools, glob
 from vlib import paths
 
 ID = 'C15'
-COQ_ROOTS = ['Props/C15.v']
+COQ_ROOTS = ['Props/C15.v', 'GenProps/Connect_consts.v']
 RULE = ('SSH (quick, exhaustive grid on a recording paramiko.Transport reached through manager.connect_ssh): '
         'hostkey_verify x known_hosts file layout (no file, empty, match under host, match under [host]:port, different key of '
         'the same/another type, other host only, both names with conflicting keys, duplicates) x pinned key (absent, unusable, '
